@@ -307,7 +307,7 @@ theorem pinsAt_of_mem (bits : List (Nat × List P)) (hnd : (bits.map (·.1)).Nod
 theorem multibit_merge_perm (base : Nat) (ws : List (List P)) (sub bits : List (Nat × List P))
     (hsub : sub.Sublist (bitNetsOf base ws)) (hperm : bits.Perm sub) (hne : bits ≠ []) :
     ∃ c, foldBits bits = some c ∧
-      (∀ b ∈ sub, c.lo ≤ b.1 ∧ c.ws.getD (b.1 - c.lo) [] = b.2) ∧
+      (∀ b ∈ sub, c.lo ≤ b.1 ∧ b.1 < c.lo + c.ws.length ∧ c.ws.getD (b.1 - c.lo) [] = b.2) ∧
       (∀ j, j < c.ws.length → (∀ b ∈ sub, b.1 ≠ c.lo + j) → c.ws.getD j [] = []) ∧
       (∃ b ∈ sub, b.1 = c.lo) ∧ (∃ b ∈ sub, b.1 + 1 = c.lo + c.ws.length) := by
   have hnd_sub : (sub.map (·.1)).Nodup := (bitNetsOf_nodup base ws).sublist (hsub.map _)
@@ -317,7 +317,7 @@ theorem multibit_merge_perm (base : Nat) (ws : List (List P)) (sub bits : List (
   · intro b hb
     have hb' : b ∈ bits := hperm.mem_iff.mpr hb
     have hr := hrange b.1 (List.mem_map_of_mem hb')
-    refine ⟨hr.1, ?_⟩
+    refine ⟨hr.1, hr.2, ?_⟩
     have := hpos (b.1 - c.lo) (by omega)
     rw [this, show c.lo + (b.1 - c.lo) = b.1 by omega]
     exact pinsAt_of_mem bits hnd b hb'
